@@ -104,6 +104,14 @@ class Counter:
     def echo(self, *args, **kwargs):
         return [list(args), kwargs]
 
+    def poke(self, target, v):
+        # `target` is a proxy, used here *inside the server* (short-cut path of BaseProxy._callmethod)
+        target.append(v)
+        return len(target)
+
+    def poke_pop(self, target):
+        return target.pop()
+
 
 def _register():
     from mpservice.multiprocessing.server_process import ServerProcess
@@ -136,8 +144,7 @@ def canon(v, agent=None, keep=None):
     if isinstance(v, list):
         return [canon(x, agent, keep) for x in v]
     if isinstance(v, dict):
-        return {'$dict': sorted(([canon(k, agent, keep), canon(x, agent, keep)] for k, x in v.items()),
-                                key=lambda kv: json.dumps(kv[0], sort_keys=True, default=str))}
+        return {'$dict': [[canon(k, agent, keep), canon(x, agent, keep)] for k, x in v.items()]}   # in iteration order
     if isinstance(v, (set, frozenset)):
         return {'$set': sorted((canon(x, agent, keep) for x in v), key=lambda x: json.dumps(x, sort_keys=True))}
     if isinstance(v, BaseException):
@@ -153,7 +160,8 @@ def canon_exc(e):
     except Exception:  # noqa
         remote, tb = False, ''
     return {'$exc': type(e).__name__, 'args': canon(tuple(e.args)), 'remote': remote,
-            'tb_has_site': ('e4_mgr.py' in (tb or '')) or ('line' in (tb or '')), 'tb_len': len(tb or '')}
+            'tb_has_site': 'Traceback (most recent call last)' in (tb or '') and type(e).__name__ in (tb or ''),
+            'tb_len': len(tb or '')}
 
 
 def decanon(v, agent):
@@ -168,7 +176,11 @@ def decanon(v, agent):
         if '$bytes' in v:
             return bytes.fromhex(v['$bytes'])
         if '$set' in v:
-            return set(decanon(x, agent) for x in v['$set'])
+            return frozenset(decanon(x, agent) for x in v['$set'])
+        if '$slice' in v:
+            return slice(*v['$slice'])
+        if '$float' in v:
+            return float(v['$float'])
         raise ValueError(v)
     if isinstance(v, list):
         return [decanon(x, agent) for x in v]
@@ -366,6 +378,24 @@ class Director:
 
     def run_cmd(self, who, cmd):
         cmd = [self.saved.pop(x['$saved']) if isinstance(x, dict) and '$saved' in x else x for x in cmd]
+        if cmd[0] == 'par':
+            # ['par', [[who, cmd], ...]]: issue to all remote clients at once, then run the director's own
+            sent = []
+            for w, c in cmd[1]:
+                if w != '0':
+                    self.conns[w].send(c)
+                    sent.append(w)
+            out = {}
+            for k, (w, c) in enumerate(cmd[1]):
+                if w == '0':
+                    out[k] = self.me.do(c)
+            for k, (w, c) in enumerate(cmd[1]):
+                if w != '0':
+                    cn = self.conns[w]
+                    if not cn.poll(self.op_timeout):
+                        return {'$hang': f'client {w} did not answer {c[0]} within {self.op_timeout}s'}
+                    out[k] = cn.recv()
+            return [out[k] for k in range(len(cmd[1]))]
         if cmd[0] == 'spawn':
             # ['spawn', child, handles, proc_cls]
             who_agent_cmd = ['spawn', cmd[1], cmd[2], self.addr, cmd[3]]
@@ -451,6 +481,18 @@ class Director:
             if name in found:
                 self.real2h[found[name]] = hid
 
+    def annotate(self, v):
+        """add the harness ident to every proxy in a canonical result"""
+        if isinstance(v, dict):
+            if '$proxy' in v:
+                v['hid'] = self.real2h.get(v['$proxy'])
+                return
+            for x in v.values():
+                self.annotate(x)
+        elif isinstance(v, list):
+            for x in v:
+                self.annotate(x)
+
     def run(self):
         out = []
         for k, st in enumerate(self.case['steps']):
@@ -471,6 +513,7 @@ class Director:
                         if isinstance(nm, str):
                             self.shm[hid] = nm
             mismatch = False
+            self.annotate(r)
             if 'expect' in st and not hung:
                 rec['obs'] = self.observe(st['expect'])
                 mismatch = rec['obs']['rc'] != st['expect']['rc'] or rec['obs']['shm'] != st['expect']['shm']
